@@ -174,7 +174,7 @@ M("c14-bounds-wlsq", "C14", FIT, "            popt, _ = curve_fit(func, x, y, p0
 M("c14-upper-inf", "C14", FIT, "upper_bounds.append(upper if upper is not None else np.inf)", "upper_bounds.append(upper if upper is not None else -np.inf)", rules=["C14.bounds"])
 M("c14-bounds-order", "C14", FIT, "    return [lower_bounds, upper_bounds]", "    return [upper_bounds, lower_bounds]", rules=["C14.bounds"])
 M("c14-no-callback", "C14", DEP, "        for dependent in self.dependents:\n            dependent.callback(self)", "        pass", rules=["C14.protocol"])
-M("c14-record-late", "C14", DEP, "        self.x = x\n        self.y = y\n        if self._may_fit:  # is the conditioner fitted, so that we can fit now?\n            self._fit(self.x, self.y)", "        if self._may_fit:  # is the conditioner fitted, so that we can fit now?\n            self.x = x\n            self.y = y\n            self._fit(self.x, self.y)", rules=["C14.protocol"])
+M("c14-record-late", "C14", DEP, "        self.x = np.asarray(x)\n        self.y = np.asarray(y)\n        if self._may_fit:  # is the conditioner fitted, so that we can fit now?\n            self._fit(self.x, self.y)", "        if self._may_fit:  # is the conditioner fitted, so that we can fit now?\n            self.x = np.asarray(x)\n            self.y = np.asarray(y)\n            self._fit(self.x, self.y)", rules=["C14.protocol"])
 M("c14-no-replay", "C14", DEP, "                self.fit(self.x, self.y)", "                pass", rules=["C14.protocol"])
 M("c14-zip-order", "C14", DEP, "        self.parameters = dict(zip(self.parameters.keys(), popt))", "        self.parameters = dict(zip(self.parameters.keys(), popt[::-1]))", rules=["C14.start"])
 M("c14-minimize-bounds", "C14", FIT, "        bounds=bounds,\n        # the default ftol", "        # the default ftol", rules=["C14.bounds"])
@@ -417,3 +417,19 @@ M("c17-on-line-tested-late", "C17", U, "        y = np.append(y, y1[x1 == x2])\n
 M("c17-twin-on-line-concatenate", "C17", U, "        y = np.append(y, y1[x1 == x2])\n", "        on_line = y1[x1 == x2]\n        y = np.concatenate([y, on_line])\n", expect="pass")
 M("c10-starts-from-arange-values", ["C10", "C09"], I, "        n_intervals = len(np.arange(data_min, data_max + width, width))\n        interval_starts = data_min + width * np.arange(n_intervals)\n", "        interval_starts = np.arange(data_min, data_max + width, width)\n", rules={"C10": ["C10.refs"], "C09": ["C09.membership"]}, what="original defect (second audit C10#1)")
 M("c10-twin-starts-size", "C10", I, "        n_intervals = len(np.arange(data_min, data_max + width, width))\n        interval_starts = data_min + width * np.arange(n_intervals)\n", "        n_intervals = np.arange(data_min, data_max + width, width).size\n        interval_starts = np.arange(n_intervals) * width + data_min\n", expect="pass")
+M("c14-declared-late-ignored", "C14", DEP, "                if dep_param._fitted:\n                    # fitted before this function was declared, no callback will come\n                    self._fitted_conditioners.add(dep_param)\n                else:\n                    self._may_fit = False\n", "                self._may_fit = False\n", rules=["C14.protocol"], what="original defect (second audit C14#3)")
+M("c14-fitted-flag-never-set", "C14", DEP, "        self.parameters = dict(zip(self.parameters.keys(), popt))\n        self._fitted = True\n", "        self.parameters = dict(zip(self.parameters.keys(), popt))\n", rules=["C14.protocol"])
+M("c14-fitted-flag-not-recorded", "C14", DEP, "                if dep_param._fitted:\n                    # fitted before this function was declared, no callback will come\n                    self._fitted_conditioners.add(dep_param)\n                else:\n                    self._may_fit = False\n", "                if not dep_param._fitted:\n                    self._may_fit = False\n", rules=["C14.protocol"], what="with two conditioners the callback's subset test never holds")
+M("c14-twin-fitted-flag-getattr", "C14", DEP, "                if dep_param._fitted:\n", "                if getattr(dep_param, \"_fitted\", False):\n", expect="pass")
+M("c14-twin-fitted-flag-inverted", "C14", DEP, "                if dep_param._fitted:\n                    # fitted before this function was declared, no callback will come\n                    self._fitted_conditioners.add(dep_param)\n                else:\n                    self._may_fit = False\n", "                if not dep_param._fitted:\n                    self._may_fit = False\n                else:\n                    self._fitted_conditioners.add(dep_param)\n", expect="pass")
+
+# ------------------------------------------------------------------ third audit (second audit of the other twelve properties)
+M("c04-and-stores-arrays", "C04", C, "            coords_x[i] = current_vector[0, 0]\n            coords_y[i] = current_vector[1, 0]", "            coords_x[i] = current_vector[0]\n            coords_y[i] = current_vector[1]", rules=["C04.close"], what="original defect (third audit C04): deprecated array-to-scalar conversion")
+M("c04-twin-and-float", "C04", C, "            coords_x[i] = current_vector[0, 0]\n            coords_y[i] = current_vector[1, 0]", "            coords_x[i] = float(current_vector[0, 0])\n            coords_y[i] = float(current_vector[1, 0])", expect="pass")
+M("c05-normfit-log-cancellation", "C05", D, "        return np.sqrt(np.log1p(sigma_norm**2 / mu_norm**2))", "        return np.sqrt(np.log(1 + (sigma_norm**2 / mu_norm**2)))", rules=["C05.stable"], what="original defect (third audit C05#2)")
+M("c05-normfit-wrong-ratio", "C05", D, "        return np.sqrt(np.log1p(sigma_norm**2 / mu_norm**2))", "        return np.sqrt(np.log1p(sigma_norm / mu_norm**2))", rules=["C05.slots"])
+M("c05-twin-normfit-log1p-temp", "C05", D, "        return np.sqrt(np.log1p(sigma_norm**2 / mu_norm**2))", "        ratio = sigma_norm**2 / mu_norm**2\n        return np.sqrt(np.log1p(ratio))", expect="pass")
+M("c14-xy-recorded-raw", "C14", DEP, "        self.x = np.asarray(x)\n        self.y = np.asarray(y)\n", "        self.x = x\n        self.y = y\n", rules=["C14.protocol"], what="original defect (third audit C09#1, second audit C14#4): list estimates reach weights(x, y) / func(x, *p)")
+M("c14-xy-raw-to-fit", "C14", DEP, "            self._fit(self.x, self.y)", "            self._fit(x, y)", rules=["C14.protocol"])
+M("c14-twin-xy-float", "C14", DEP, "        self.x = np.asarray(x)\n        self.y = np.asarray(y)\n", "        self.x = np.asarray(x, dtype=float)\n        self.y = np.asarray(y, dtype=float)\n", expect="pass")
+M("c14-twin-xy-converted-first", "C14", DEP, "        self.x = np.asarray(x)\n        self.y = np.asarray(y)\n", "        x = np.asarray(x)\n        y = np.asarray(y)\n        self.x = x\n        self.y = y\n", expect="pass")
